@@ -249,6 +249,20 @@ pub fn gen_fix(r: &mut Rng, tier: &str, emit: &mut dyn FnMut(String)) {
     emit(hdr(r, "fadt", "-"));
     for f in 0..25 { emit(format!("{} ; flag={}", hdr(r, "fadt", "-"), f)); }
     for p in 0..9 { emit(format!("{} ; profile={}", hdr(r, "fadt", "-"), p)); }
+    // every ordered pair of flags (an option must not disturb a bit set earlier or later), ordered
+    // triples over the multi-bit neighbourhood (bits 20..23), a direct write of the flags field
+    // before/after a flag call, and random flag-only programs
+    for a in 0..25 { for b in 0..25 { emit(format!("{} ; flag={} ; flag={}", hdr(r, "fadt", "-"), a, b)); } }
+    for a in 19..25 { for b in 19..25 { for c in 19..25 { emit(format!("{} ; flag={} ; flag={} ; flag={}", hdr(r, "fadt", "-"), a, b, c)); } } }
+    for a in 0..25 {
+        emit(format!("{} ; set=37.{} ; flag={}", hdr(r, "fadt", "-"), 0xA5A5_5A5Au32, a));
+        emit(format!("{} ; flag={} ; set=37.{}", hdr(r, "fadt", "-"), a, 0x0F0F_F0F0u32));
+    }
+    for _ in 0..200 * k {
+        let mut l = hdr(r, "fadt", "-");
+        for _ in 0..r.range(2, 10) { l.push_str(&format!(" ; flag={}", r.below(25))); }
+        emit(l);
+    }
     let excl = ["dsdt32=305419896", "dsdt64=1311768467463790320", "fc32=2271560481", "fc64=9833440827789222417", "acpien", "acpidis", "profile=4", "profile=8"];
     for a in excl { for b in excl { emit(format!("{} ; {} ; {}", hdr(r, "fadt", "-"), a, b)); for c in excl { emit(format!("{} ; {} ; {} ; {}", hdr(r, "fadt", "-"), a, b, c)); } } }
     for _ in 0..400 * k {
